@@ -591,10 +591,8 @@ def multistream_guard(ctx):
             tg = F.resolve_callee(c)
             reads = False
             for g in tg:
-                if g.self_adt == f.self_adt and g.path != f.path:
-                    for b2, t2, c2 in g.calls():
-                        if c2.trait and last_seg(c2.trait) in ('Read', 'ByteReader'):
-                            reads = True
+                if g.self_adt == f.self_adt and g.path != f.path and _pulls(F, g, set()):
+                    reads = True
             if not reads:
                 continue
             n += 1
@@ -615,6 +613,20 @@ def multistream_guard(ctx):
                               'testing self.%s: a single-stream reader consumes/needs trailing data' % flag)
     if n == 0:
         ctx.anchor_missing('call reading past the footer')
+
+
+def _pulls(F, g, seen, depth=0):
+    """g (or a helper method of the same type it calls, up to three levels) reads from the source"""
+    if g.path in seen or depth > 3:
+        return False
+    seen.add(g.path)
+    for b2, t2, c2 in g.calls():
+        if c2.trait and last_seg(c2.trait) in ('Read', 'ByteReader'):
+            return True
+        for h in F.resolve_callee(c2):
+            if h.self_adt == g.self_adt and h.kind != 'closure' and _pulls(F, h, seen, depth + 1):
+                return True
+    return False
 
 
 UNIT_CTORS = (('XZWriter', 'new'), ('LZIPWriter', 'new'), ('LZMA2Writer', 'new'), ('LZMA2WriterMT', 'new'), ('LZIPWriterMT', 'new'))
